@@ -925,7 +925,7 @@ Proof.
     destruct (IH last1 true (env_set d db1 e) db1) as (e' & rest & tr & E).
     + apply env_wf_set; assumption.
     + eapply env_get_set_same, G.
-    + eapply slice_parseable; eassumption.
+    + exact (slice_parseable _ _ _ _ _ _ _ Sd P Sl).
     + exact Q.
     + cbn [length] in Len. lia.
     + fold (apply_ops cmp [] (env_set d db1 e)). unfold apply_ops. cbn [fold_left]. rewrite E. eauto.
@@ -945,4 +945,106 @@ Proof.
   destruct ops; [|discriminate]. cbn [dbi_pass]. rewrite HE. unfold apply_ops. cbn [fold_left]. apply IH, Q.
 Qed.
 
+
+(* ==== the pass is nothing but ok-steps interleaved with the application's steps ==== *)
+
+(* rely/guarantee form of C13_only_expired: any state predicate that is kept by every [step_ok]
+   transaction on a selected DBI and by the application's own commits holds of the environment
+   the pass leaves behind (whatever its outcome) *)
+Theorem sweep_rely_guarantee cutoff native (J : env -> Prop) names sc e :
+  (forall d e1 e2, selected native d = true -> env_wf e1 -> env_wf e2 -> step_ok cutoff (mkStep d e1 e2) -> J e1 -> J e2) ->
+  (forall lim ops, In (lim, ops) sc -> forall e1, env_wf e1 -> J e1 -> J (apply_ops cmp ops e1)) ->
+  env_wf e -> J e -> J (out_env (fst (sweep_dbis cmp cutoff native names sc e))).
+Proof.
+  intros HS HA W J0. apply (sweep_dbis_inv_gen cutoff native J); try assumption.
+  intros d e0 last lim e1 last1 lr1 Sel W0 Je E.
+  destruct (eslice_only _ _ _ _ _ _ _ _ W0 E) as [W1 Ok1]. exact (HS d e0 e1 Sel W0 W1 Ok1 Je).
+Qed.
+
 End Order.
+
+(* ---- the instance for ordinary DBIs: keys ordered by bytes.Compare ---- *)
+Ltac inst L :=
+  first [ let x := constr:(L bcmp bcmp_eq_iff bcmp_antisym bcmp_lt_trans) in exact x
+        | let x := constr:(L bcmp bcmp_eq_iff bcmp_lt_trans) in exact x
+        | let x := constr:(L bcmp bcmp_eq_iff bcmp_antisym) in exact x
+        | let x := constr:(L bcmp bcmp_eq_iff) in exact x
+        | let x := constr:(L bcmp) in exact x ].
+Definition b_only_expired := ltac:(inst sweep_only_expired).
+Definition b_only_expired_net := ltac:(inst sweep_only_expired_net).
+Definition b_rely_guarantee := ltac:(inst sweep_rely_guarantee).
+Definition b_slice_only := ltac:(inst slice_only).
+Definition b_complete := ltac:(inst sweep_complete).
+Definition b_slice_reach := ltac:(inst slice_reach).
+Definition b_slice_progress := ltac:(inst slice_progress).
+Definition b_terminates := ltac:(inst dbi_pass_terminates).
+Definition b_shadow_scope := ltac:(inst sweep_shadow_scope).
+Definition b_frame := ltac:(inst sweep_frame).
+Definition b_zero_cutoff := ltac:(inst sweep_zero_cutoff).
+Definition b_clamped := ltac:(inst sweep_clamped_sweeps_nothing).
+Definition b_livelock := ltac:(inst stale_limit_livelock).
+
+(* ---- what "expired" means, and decidable well-formedness ---- *)
+
+Theorem is_expired_iff cutoff v :
+  is_expired cutoff v = true <->
+  exists h a, parse v = Ok (h, a) /\ is_deleted (h_flags h) = true /\ h_ts h < cutoff.
+Proof.
+  unfold is_expired, classify. destruct (parse v) as [[h a]| | |].
+  - destruct (is_deleted (h_flags h)) eqn:D; cbn [negb].
+    + destruct (N.leb_spec cutoff (h_ts h)) as [L|L]; split.
+      * discriminate.
+      * intros (h' & a' & E & _ & Lt). inversion E; subst. lia.
+      * intros _. exists h, a. auto.
+      * reflexivity.
+    + split; [discriminate|]. intros (h' & a' & E & D' & _). inversion E; subst. congruence.
+  - split; [discriminate|]. intros (h' & a' & E & _). discriminate.
+  - split; [discriminate|]. intros (h' & a' & E & _). discriminate.
+  - split; [discriminate|]. intros (h' & a' & E & _). discriminate.
+Qed.
+
+Fixpoint sortedb (db : dbi) : bool :=
+  match db with
+  | [] => true
+  | (k, _) :: r => forallb (fun p => is_lt (bcmp k (fst p))) r && sortedb r
+  end.
+Definition env_wfb (e : env) : bool := forallb (fun p => sortedb (snd p)) e.
+
+Lemma sortedb_sorted db : sortedb db = true -> sorted bcmp db.
+Proof.
+  induction db as [|[k v] r IH]; intros H; [constructor|].
+  cbn [sortedb] in H. apply andb_true_iff in H. destruct H as [F S].
+  constructor; [apply IH, S|]. rewrite forallb_forall in F. apply Forall_forall. intros p I.
+  specialize (F p I). unfold ltk. cbn [fst]. destruct (bcmp k (fst p)); try discriminate. reflexivity.
+Qed.
+
+Theorem env_wfb_wf e : env_wfb e = true -> env_wf bcmp e.
+Proof.
+  unfold env_wfb, env_wf. rewrite forallb_forall. intros H. apply Forall_forall. intros p I.
+  apply sortedb_sorted, H, I.
+Qed.
+
+Lemma env_get_in d e db : env_get d e = Some db -> In d (map fst e).
+Proof.
+  induction e as [|[d' x] r IH]; cbn [env_get]; [discriminate|].
+  destruct (beqb d d') eqn:E; [apply beqb_eq in E; subst; left; reflexivity|intros H; right; apply IH, H].
+Qed.
+
+(* C13_complete stated on [sweep] with the cutoff computed from the clock and the retention
+   (no wrap: 0 <= R <= now) *)
+Theorem sweep_complete_top now R native sc e e' rest d k v h a :
+  env_wf bcmp e -> (0 <= R)%Z -> (R <= now)%Z -> (now <= max_int64)%Z ->
+  selected native d = true ->
+  elookup d k e = Some v -> parse v = Ok (h, a) -> is_deleted (h_flags h) = true ->
+  (Z.of_N (h_ts h) < now - R)%Z ->
+  untouched d k sc = true ->
+  fst (sweep bcmp now R native sc e) = Done e' rest ->
+  elookup d k e' = None.
+Proof.
+  intros W H0 H1 H2 Sel L P D T U H. unfold sweep in H.
+  assert (X : is_expired (sweep_cutoff now R) v = true).
+  { apply is_expired_iff. exists h, a. repeat split; try assumption.
+    pose proof (sweep_cutoff_exact now R H0 H1 H2). lia. }
+  eapply (b_complete _ native d k v X Sel _ sc e e' rest W U); [|left; exact L|exact H].
+  unfold elookup in L. destruct (env_get d e) as [db|] eqn:G; [|discriminate]. eapply env_get_in, G.
+Qed.
